@@ -60,6 +60,8 @@ package goa
 //@   requires both && eS ==> forall i int :: 0 <= i && i < len(e.history) ==> e.history[i] != e && e.history[i] != nil && allocated(e.history[i])
 //@   requires both && oS ==> forall i int :: 0 <= i && i < len(o.history) ==> o.history[i] != nil && allocated(o.history[i]) && (eS ==> o.history[i] != e)
 //@   split oS
+//@   split eS
+//@   split eHist0
 //@   split oHist0
 //@   ensures* nil.left: err == nil ==> result == other
 //@   ensures* nil.right: err != nil && other == nil ==> result == err
